@@ -18,6 +18,14 @@ func parseStatusKey(key string) (string, string, string, string) {
 	return parts[l-4], parts[l-3], parts[l-2], parts[l-1]
 }
 
+// globEscaper escapes the special characters of redis glob-style patterns (SCAN MATCH, PSUBSCRIBE)
+var globEscaper = strings.NewReplacer(`\`, `\\`, `*`, `\*`, `?`, `\?`, `[`, `\[`, `]`, `\]`)
+
+// escapeGlob makes a name match only itself when it is spliced into a key pattern
+func escapeGlob(name string) string {
+	return globEscaper.Replace(name)
+}
+
 // getByKeyPattern gets key-value pairs that key matches pattern
 func (r *Rediaron) getByKeyPattern(ctx context.Context, pattern string, limit int64) (map[string]string, error) {
 	var (
